@@ -7,7 +7,8 @@
 import json, re
 from common import *
 
-CTYPES = [b"application/octet-stream", b"text/plain", b"image/png", b"text/csv; charset=utf-8", b"application/x-custom+json"]
+CTYPES = [b"application/octet-stream", b"text/plain", b"image/png", b"text/csv; charset=utf-8", b"application/x-custom+json",
+          b"text/plain; charset=utf-8; format=flowed; delsp=yes", b"text/html; charset=utf-8; name=\"page.html\"", b"text/plain; charset=utf-8", b"text/plain; format=flowed; charset=utf-8"]
 NAMES = [b"a.txt", b"a b.txt", "résumé.pdf".encode(), b"x" * 70 + b".bin", b'q"uote.txt', b"semi;colon.txt", "文件.txt".encode() * 6]
 PROTOS = [(b"application/pgp-signature", b"pgp-sha256"), (b"application/pkcs7-signature", b"sha-256"), (b"application/pgp-encrypted", b"x")]
 # parameter values are case-sensitive text of the caller: mixed case must come out as given, with generated and with custom boundaries
